@@ -2,7 +2,7 @@
 # Replay of findings F7 / F8 (C09) on the real code.  verify_nsec3 is pub(super), so the demonstration is two unit
 # tests added to the tests module of crates/net/src/dnssec/nsec3.rs in a SCRATCH worktree (never in /repo):
 #   sh run.sh <commit>      e.g. 240d10a (before the fixes: both FAIL with `left: Secure, right: Bogus`)
-#                                HEAD    (after 27a221d and 0aac287: both pass)
+#                                HEAD    (after 9a3a04f: F8 passes; F7 still fails -- it is a recorded finding, see known_findings.json)
 set -e
 C="${1:-HEAD}"; WT=/tmp/wt_f7f8_demo
 git -C /repo worktree remove --force $WT 2>/dev/null || true
